@@ -278,7 +278,7 @@ impl VariablesState {
     }
 
     // Returns true if global var has changed and we need to notify observers
-    fn set_global(&mut self, name: &str, value: Rc<Value>) -> bool {
+    fn set_global(&mut self, name: &str, mut value: Rc<Value>) -> bool {
         let mut old_value: Option<Rc<Value>> = None;
 
         if let Some(patch) = &self.patch {
@@ -289,8 +289,11 @@ impl VariablesState {
             old_value = self.global_variables.get(name).cloned();
         }
 
-        if let Some(old_value) = &old_value {
-            Value::retain_list_origins_for_assignment(old_value.as_ref(), value.as_ref());
+        if let Some(old_value) = &old_value
+            && let Some(retained) =
+                Value::retain_list_origins_for_assignment(old_value.as_ref(), value.as_ref())
+        {
+            value = Rc::new(retained);
         }
 
         if let Some(patch) = &mut self.patch {
